@@ -92,3 +92,26 @@ Theorem C11_inject_gives_inline :
   inject_parameters ftext is_alpha b sql params = Ok inl.
 Proof. exact inject_gives_inline. Qed.
 Print Assumptions C11_inject_gives_inline.
+
+(* The hypothesis of C11_inject_gives_inline made decidable (Spec/CrateSeam.v): crate_sep holds when every piece of
+   the parameterised SQL tokenizes alone under the crate's tokenizer, no token of that tokenizer reaches across a seam
+   (tokenize_app: the crate tokenizer is compositional at stable seams - a run of blanks not followed by a blank, a
+   word not followed by a word character, a quoted token closed and not followed by its doubled delimiter), text
+   pieces contain no mark token and every hole reads as its mark.  For EVERY script with crate_sep = true:
+   inject_parameters applied to build()'s SQL and values returns exactly to_string()'s SQL.  The extracted model
+   evaluates crate_sep on every generated statement (evidence: inject_theorem_premise). *)
+Require Import SQV.Spec.EngScript SQV.Spec.CrateSeam SQV.Proofs.CrateSeamProofs.
+Theorem C11_crate_tokenizer_is_compositional_at_stable_seams :
+  forall is_alpha s1 ts1 x tsx,
+  tokenize is_alpha s1 = Some ts1 -> tokenize is_alpha x = Some tsx -> cjoin_ok is_alpha ts1 x = true ->
+  tokenize is_alpha (s1 ++ x) = Some (ts1 ++ tsx).
+Proof. exact tokenize_app. Qed.
+Print Assumptions C11_crate_tokenizer_is_compositional_at_stable_seams.
+
+Theorem C11_inject_is_inline_when_separable :
+  forall (ftext : bool -> N -> str) (is_alpha : N -> bool) b (sc : script) sql vals inl,
+  emit_params ftext b sc = Ok (sql, vals) -> emit_inline ftext b sc = Ok inl ->
+  crate_sep is_alpha ftext b sc = true ->
+  inject_parameters ftext is_alpha b sql vals = Ok inl.
+Proof. exact inject_is_inline_when_separable. Qed.
+Print Assumptions C11_inject_is_inline_when_separable.
